@@ -22,3 +22,4 @@ layout (lexical variants, element order, omitted optional attributes) — parsin
 roxmltree's job and outside the model; blobs in other places (C06); images.
 -/
 import E57.Proofs.LayoutRead
+import E57.Proofs.MetaRoundTrip
